@@ -1047,22 +1047,11 @@ class state_machine_base : public FrontEnd
                 m_active_state_ids[region_id] = get_state_id<State>();
             }
         );
-        // ... then execute each state entry.
+        // ... then execute each state entry, region by region
+        // (the visitor numbers the regions by counting its invocations,
+        // the target states may be listed in any order).
         state_entry_visitor<Event> visitor{self(), event};
-        if constexpr (all_regions_defined)
-        {
-            mp11::mp_for_each<state_identities>(
-                [this, &visitor](auto state_identity)
-                {
-                    using State = typename decltype(state_identity)::type;
-                    auto& state = this->get_state<State>();
-                    visitor(state);
-                });
-        }
-        else
-        {
-            visit<visit_mode::active_non_recursive>(visitor);
-        }
+        visit<visit_mode::active_non_recursive>(visitor);
 
         postprocess_entry();
     }
